@@ -561,6 +561,38 @@ def rule_e(ctx: Context, R: Reporter):
         R.check("C13.e", "no class customises unpickling (default pickling keeps every attribute)", True, None, None, key="setstate-none", loc="tempest/")
 
 
+def rule_f(ctx: Context, R: Reporter, wrapper: FuncInfo, disp: FuncInfo):
+    """C13.f  who-may-read the pool option: the evaluation strategy is transparent only if nothing but the
+    evaluation machinery looks at it -- the dispatcher, the wrapper, the checkpoint writer (which detaches
+    it while pickling) and pure forwarding (a keyword argument, a value of an exported dictionary).  Any
+    other read lets an algorithmic quantity (particle count, schedule, ...) depend on the pool."""
+    n = 0
+    allowed_funcs = {wrapper.qualname, disp.qualname}
+    for fi in ctx.prog.functions.values():
+        if any((ctx.res.external_name(fi, c) or "") in ("dill.dumps", "dill.dump", "pickle.dumps", "pickle.dump") for c in calls_in(fi.node)):
+            allowed_funcs.add(fi.qualname)
+    for fi in ctx.prog.functions.values():
+        parents = {}
+        for x in ast.walk(fi.node):
+            for ch in ast.iter_child_nodes(x):
+                parents[id(ch)] = x
+        for x in walk_no_nested(fi.node):
+            is_read = isinstance(x, ast.Attribute) and x.attr in ("pool", "vectorize") and isinstance(x.ctx, ast.Load)
+            if not is_read:
+                continue
+            n += 1
+            par = parents.get(id(x))
+            forwarding = isinstance(par, ast.keyword) or (isinstance(par, ast.Dict) and any(v is x for v in par.values)) or (isinstance(par, ast.Return) and par.value is x)
+            ok = fi.qualname in allowed_funcs or forwarding
+            if x.attr == "vectorize" and fi.cls is not None and fi.cls.is_dataclass:
+                ok = True  # the configuration's own validation (vectorised likelihood with blobs is rejected)
+            R.check("C13.f", "the evaluation options (pool, vectorize) are read only by the evaluation machinery (or forwarded untouched)", ok, fi, x,
+                    msg=f"{fi.short}: reads `{unparse(x)}` (in `{unparse(par)[:60] if par is not None else ''}`) outside the likelihood wrapper / dispatcher / checkpoint writer: something "
+                        f"other than how the likelihood is evaluated now depends on the evaluation option `{x.attr}`, so runs that differ only in that option differ under one seed",
+                    key=f"{x.attr}-read:{fi.short}")
+    R.floor("C13.f", "reads of the pool option", n, 5)
+
+
 def run(ctx: Context, R: Reporter):
     w = wrapper_fn(ctx)
     d = dispatcher_fn(ctx, w)
@@ -568,6 +600,7 @@ def run(ctx: Context, R: Reporter):
     R.guard(rule_b, ctx, R, d)
     R.guard(rule_c, ctx, R, w)
     R.guard(rule_e, ctx, R)
+    R.guard(rule_f, ctx, R, w, d)
 
 
 def variants():
@@ -590,6 +623,7 @@ def variants():
         Variant("c-warmup-miscount", "bad", replace_expr(mu, "Mutator.run", "self.state.get_current('calls') + self.n_particles", "self.state.get_current('calls') + 1"), ["C13.c"]),
         Variant("c-total-added-twice", "bad", insert_after(mu, "Mutator.run", "self.state.set_current('calls', calls)", "self.state.set_current('calls', calls + mcmc_calls)"), ["C13.c"]),
         Variant("c-total-dropped", "bad", replace_stmt(mu, "Mutator.run", "calls = self.state.get_current('calls') + mcmc_calls", "calls = self.state.get_current('calls')"), ["C13.c"]),
+        Variant("f-pool-sized-default", "bad", replace_stmt("tempest/config.py", "SamplerConfig.__post_init__", "object.__setattr__(self, 'n_particles', 2 * self.n_dim)", "object.__setattr__(self, 'n_particles', 2 * self.n_dim + (self.pool if isinstance(self.pool, int) else 0))"), ["C13.f"], quick=True),
         Variant("a-lazy-results", "bad", replace_expr(core, "SamplerCore._log_like", "list(self._get_distribute_func()(self.config.log_likelihood, x))", "self._get_distribute_func()(self.config.log_likelihood, x)"), ["C13.a"], quick=True),
         Variant("a-benign-tuple-results", "benign", replace_expr(core, "SamplerCore._log_like", "list(self._get_distribute_func()(self.config.log_likelihood, x))", "tuple(self._get_distribute_func()(self.config.log_likelihood, x))")),
         Variant("benign-rename-results", "benign", alpha_rename(core, "SamplerCore._log_like", "results", "vals"), quick=True),
